@@ -1,7 +1,7 @@
 (* C01 - literal template text is reproduced byte for byte.  Theorems only. *)
 From Coq Require Import Lia.
-From Ructe Require Import Nom NomFacts Utf8 Spacelike Expression TemplateExpr Template Emit RustLit
-                          ParserProofs SpaceProofs TextProofs RustLitProofs EmitProofs.
+From Ructe Require Import Nom NomFacts Utf8 Spacelike Expression TemplateExpr Template Emit RustLit Compile Exec
+                          ParserProofs SpaceProofs TextProofs RustLitProofs EmitProofs RoundTrip.
 Local Open Scope list_scope.
 
 Section C01.
@@ -60,6 +60,45 @@ Proof.
     split; [|reflexivity]. now apply str_literal_roundtrip.
 Qed.
 
+(* the whole statement on the model, end to end: a body made of text runs, escapes and comments
+   (any derivation in the declarative grammar whose nodes are Text / Comment) is parsed to exactly
+   those nodes, and running them writes the text runs in order, byte for byte -- the comments
+   contribute nothing, the escapes their one character -- whatever the environment, the callees
+   and the fuel (above the number of nodes) *)
+Fixpoint literal_of (items : list texpr) : option bytes :=
+  match items with
+  | [] => Some []
+  | TText t :: r => match literal_of r with Some x => Some (t ++ x) | None => None end
+  | TComment :: r => literal_of r
+  | _ => None
+  end.
+Lemma render_literals env (o : oracle env) : forall items out fuel e cs,
+  literal_of items = Some out -> List.length items < fuel -> render env o fuel e cs items = Some out.
+Proof.
+  induction items as [|it rest IH]; intros out fuel e cs H L; (destruct fuel as [|fuel]; [cbn in L; lia|]); cbn [render].
+  - now inversion H.
+  - cbn [List.length] in L. destruct it; cbn [literal_of] in H; try discriminate.
+    + rewrite (IH out fuel e cs H ltac:(lia)). reflexivity.
+    + destruct (literal_of rest) as [x|] eqn:R; [|discriminate]. inversion H; subst. rewrite (IH x fuel e cs eq_refl ltac:(lia)). reflexivity.
+Qed.
+Theorem literal_text_reproduced : forall (E : nt -> parser bytes) (ln : nat), (forall x, good (E x)) ->
+  forall d items src out m, PIs E ln d items src [] -> literal_of items = Some out -> d < m ->
+  many_till (context (b "Error in expression starting here:") (fun j => texpr_gram E ln m TE j)) end_of_file src = Ok (items, tt) [] /\
+  forall env (o : oracle env) fuel e cs, List.length items < fuel -> render env o fuel e cs items = Some out.
+Proof.
+  intros E ln HE d items src out m H L Hm. split; [exact (body_complete E HE ln d items src m H Hm)|].
+  intros env o fuel e cs Hf. now apply render_literals.
+Qed.
+Example a_literal_body :
+  let E0 := expr_gram 4 in
+  let items := [TText (b "<p class=""x"">") ; TComment; TText (b "@"); TText (b "mail.example"); TText (b "{"); TText (b " é€ "); TText (b "}"); TComment; TText (b "</p>" ++ [13%N; 10%N])] in
+  PIs E0 1 0 items (b "<p class=""x"">@* note **@@@mail.example@{ é€ @}@**@</p>" ++ [13%N; 10%N]) [] /\
+  literal_of items = Some (b "<p class=""x"">@mail.example{ é€ }</p>" ++ [13%N; 10%N]).
+Proof.
+  intros E0 items. unfold items. split; [|vm_compute; reflexivity].
+  match goal with |- PIs _ _ _ ?a ?s _ => concrete a; concrete s end. pi_items.
+Qed.
+
 (* the defects of the pinned commit, refuted on their witnesses *)
 Definition legacy_text_code (ue : N -> bool) (t : bytes) : bytes := b "b" ++ debug_str ue t.
 Lemma legacy_literal_refuted :
@@ -80,5 +119,8 @@ Redirect "assumptions/C01.comment_skipped" Print Assumptions comment_skipped.
 Redirect "assumptions/C01.text_node_is_source_slice" Print Assumptions text_node_is_source_slice.
 Redirect "assumptions/C01.leading_trim_only" Print Assumptions leading_trim_only.
 Redirect "assumptions/C01.text_literal_denotes_text" Print Assumptions text_literal_denotes_text.
+Redirect "assumptions/C01.render_literals" Print Assumptions render_literals.
+Redirect "assumptions/C01.literal_text_reproduced" Print Assumptions literal_text_reproduced.
+Redirect "assumptions/C01.a_literal_body" Print Assumptions a_literal_body.
 Redirect "assumptions/C01.legacy_literal_refuted" Print Assumptions legacy_literal_refuted.
 Redirect "assumptions/C01.legacy_comment_refuted" Print Assumptions legacy_comment_refuted.
